@@ -128,7 +128,7 @@ let judge _name ins outs =
           VPropfail (clause, detail)
         end
       end
-  | "MAL" :: _ ->
+  | "MAL" :: _ | "CST" :: _ ->
       if List.exists (fun t -> has_prefix t "DEAD") outs then
         VPropfail ("proxy_process_terminated", String.concat " " outs)
       else if List.mem "UNRESPONSIVE" outs then VPropfail ("proxy_unresponsive", String.concat " " outs)
